@@ -319,3 +319,75 @@ def _cancel(q):
 
 contract("usim.py.resources.base.Put.cancel", params={"self": REF("Put")}, **_cancel("put_queue"))
 contract("usim.py.resources.base.Get.cancel", params={"self": REF("Get")}, **_cancel("get_queue"))
+
+
+# ---------------------------------------------------------------------------------------------- typed request constructors
+# (the call sites at which the typed-queue preconditions of Put/Get.__init__ are checked)
+import re as _re
+
+
+def _renamed(d, name, extra_modifies, extra_ensures=(), raises=None):
+    ren = lambda t: _re.sub(r"(?<![\.\w])resource\b", name, t)      # noqa: E731
+    out = dict(d)
+    out["requires"] = [ren(x) for x in d["requires"] if "isinstance(self" not in x]
+    out["ensures"] = [ren(x) for x in d["ensures"]] + list(extra_ensures)
+    out["modifies"] = [ren(x) for x in d["modifies"]] + list(extra_modifies)
+    if raises:
+        out["raises"] = raises
+    return out
+
+
+_PUT = _request_init("put_queue", "get_queue", "_trigger_put", "Put", [], "_trigger_get")
+_GET = _request_init("get_queue", "put_queue", "_trigger_get", "Get", [], "_trigger_put")
+
+contract("usim.py.resources.container.ContainerPut.__init__",
+         params={"self": REF("ContainerPut"), "container": REF("Container"), "amount": REAL},
+         **_renamed(_PUT, "container", ["ContainerPut.amount@self"], ["self.amount == amount"],
+                    raises={"ValueError": dict(when="amount <= 0")}))
+contract("usim.py.resources.container.ContainerGet.__init__",
+         params={"self": REF("ContainerGet"), "container": REF("Container"), "amount": REAL},
+         **_renamed(_GET, "container", ["ContainerGet.amount@self"], ["self.amount == amount"],
+                    raises={"ValueError": dict(when="amount <= 0")}))
+contract("usim.py.resources.store.StorePut.__init__",
+         params={"self": REF("StorePut"), "store": REF("Store"), "item": ANY},
+         **_renamed(dict(_PUT, requires=_PUT["requires"] + ["not isinstance(store, PriorityStore) and not isinstance(store, FilterStore)"]),
+                    "store", ["StorePut.item@self"], ["self.item is item"]))
+contract("usim.py.resources.resource.Release.__init__",
+         params={"self": REF("Release"), "resource": REF("Resource"), "request": REF("Request")},
+         **_renamed(dict(_GET, requires=_GET["requires"] + ["not isinstance(resource, PreemptiveResource)"]),
+                    "resource", ["Release.request@self"], ["self.request is request"]))
+
+
+# ---------------------------------------------------------------------------------------------- the public operations
+def _api(d, extra_requires=(), extra_ensures=(), raises=None):
+    def ren(t):
+        t = _re.sub(r"(?<![\.\w])self\b", "result", t)
+        return _re.sub(r"(?<![\.\w])resource\b", "self", t)
+    out = dict(d)
+    out["requires"] = [ren(x) for x in d["requires"] if "isinstance(self" not in x] + list(extra_requires)
+    out["ensures"] = ["fresh_obj(result)"] + [ren(x) for x in d["ensures"]] + list(extra_ensures)
+    out["modifies"] = [m for m in (ren(x) for x in d["modifies"]) if "@result" not in m] + \
+        ["Event.env", "Event.callbacks", "Event.defused", "BaseRequest.resource", "BaseRequest.proc"]
+    if raises:
+        out["raises"] = raises
+    return out
+
+
+contract("usim.py.resources.container.Container.put",
+         params={"self": REF("Container"), "amount": REAL}, returns=REF("ContainerPut"),
+         **_api(_PUT, [], ["result.amount == amount"], raises={"ValueError": dict(when="amount <= 0")}))
+contract("usim.py.resources.container.Container.get",
+         params={"self": REF("Container"), "amount": REAL}, returns=REF("ContainerGet"),
+         **_api(_GET, [], ["result.amount == amount"], raises={"ValueError": dict(when="amount <= 0")}))
+_PLAIN_STORE = "not isinstance(self, PriorityStore) and not isinstance(self, FilterStore)"
+contract("usim.py.resources.store.Store.put",
+         params={"self": REF("Store"), "item": ANY}, returns=REF("StorePut"),
+         **_api(_PUT, [_PLAIN_STORE], ["result.item is item"]))
+contract("usim.py.resources.store.Store.get",
+         params={"self": REF("Store")}, returns=REF("StoreGet"), **_api(_GET, [_PLAIN_STORE]))
+_PLAIN_RES = "not isinstance(self, PreemptiveResource)"
+contract("usim.py.resources.resource.Resource.request",
+         params={"self": REF("Resource")}, returns=REF("Request"), **_api(_PUT, [_PLAIN_RES]))
+contract("usim.py.resources.resource.Resource.release",
+         params={"self": REF("Resource"), "request": REF("Request")}, returns=REF("Release"),
+         **_api(_GET, [_PLAIN_RES], ["result.request is request"]))
